@@ -275,6 +275,12 @@ def add_alias(rng, case):
         return case
     j = int(rng.integers(0, nd))
     pos = int(rng.integers(0, nd + 1))
+    subcubes = 1
+    for a in list(case["dense"]) + [case["dense"][j]]:
+        subcubes *= int(numpy.prod(numpy.shape(a)[1:] or (1,)))
+    if subcubes > 600:
+        # (cost only: thousands of sub-cubes times every aggregate and report format take minutes)
+        return case
     for key in ("dense", "commons", "extents"):
         lst = list(case[key])
         lst.insert(pos, lst[j])
